@@ -93,6 +93,23 @@ TWINS = {
         sub("apps/similarity.py", "def event_to_sample(photon_number: int, max_count_per_mode: int, modes: int) -> list:", "def event_to_sample(photon_number: int, max_count_per_mode: int, modes: int, rng=None) -> list:"),
         sub("apps/similarity.py", "    orbit = orbs[np.random.choice(len(prob), p=prob)]", "    orbit = orbs[(rng or np.random).choice(len(prob), p=prob)]"),
     ],
+    "engine-loop-enumerated": [
+        sub("engine.py", "        for p in program:\n\n            if self.backend.compiler:", "        for seg_no, p in enumerate(program):\n            _ = seg_no\n\n            if self.backend.compiler:"),
+    ],
+    "homodyne-angle-normalised-local": [
+        sub("backends/gaussianbackend/backend.py", "        self.circuit.phase_shift(-phi, mode)\n\n        if select is None:\n            eps = kwargs.get(\"eps\", 0.0002)",
+            "        angle = -phi\n        self.circuit.phase_shift(angle, mode)\n\n        if select is None:\n            eps = kwargs.get(\"eps\", 0.0002)"),
+    ],
+    "validation-helper-extracted": [
+        sub("ops.py", "class MeasureFock(Measurement):", "def _as_sequence(x):\n    return x if isinstance(x, Sequence) else [x]\n\n\nclass MeasureFock(Measurement):"),
+    ],
+    "decomposition-tolerance-constant-renamed": [rename_everywhere("_decomposition_tol", "_DECOMP_TOL")],
+    "new-compiler-subclass": [
+        sub("compilers/__init__.py", "from .passive import Passive\n", "from .passive import Passive\n\n\nclass PassiveStrict(Passive):\n    \"\"\"Passive compiler under a second name.\"\"\"\n\n    short_name = \"passive_strict\"\n"),
+    ],
+    "state-repr-extended": [
+        sub("backends/states.py", "    def __str__(self):", "    def describe(self):\n        \"\"\"One-line description.\"\"\"\n        return \"{} modes, hbar={}\".format(self._modes, self._hbar)\n\n    def __str__(self):"),
+    ],
     "docstrings-and-comments": [
         resub("decompositions.py", r'(\ndef bloch_messiah\(S, tol=1e-10, rounding=9\):\n    r""")', r"\1(edited) "),
         resub("compilers/gaussian_merge.py", r"# Fix order of operations", "# put the operations into circuit order"),
